@@ -12,6 +12,7 @@ import (
 	"sync"
 	"sync/atomic"
 	"testing"
+	"time"
 
 	"github.com/hashicorp/go-argmapper"
 	"github.com/hashicorp/go-argmapper/internal/graph"
@@ -706,5 +707,201 @@ func TestD22_FromResultOnPointerStructOutput(t *testing.T) {
 		if got := f.Output().Named("a").Value.Int(); int(got) != want {
 			t.Fatalf("a = %d, want %d", got, want)
 		}
+	}
+}
+
+// D23 (C06, C14): isStruct strips pointers with `for t.Kind() == Ptr { t =
+// t.Elem() }`. For a self-referential pointer type (legal Go: `type P *P`,
+// or `type A *B; type B *A`) Elem() never leaves the cycle, so NewFunc,
+// NewValueSet, Call and Convert spun forever.
+type d23P *d23P
+type d23A *d23B
+type d23B *d23A
+
+func TestD23_SelfReferentialPointerTypeTerminates(t *testing.T) {
+	returns := func(name string, fn func()) {
+		t.Helper()
+		done := make(chan struct{})
+		go func() {
+			defer close(done)
+			defer func() { recover() }()
+			fn()
+		}()
+		select {
+		case <-done:
+		case <-time.After(3 * time.Second):
+			t.Errorf("%s did not return within 3s", name)
+		}
+	}
+	var p d23P
+	p = d23P(&p)
+	returns("NewFunc(func(P) int) + Call", func() {
+		f, err := argmapper.NewFunc(func(p d23P) int { return 1 })
+		if err != nil {
+			return
+		}
+		res := f.Call(argmapper.Typed(p))
+		if res.Err() != nil || res.Out(0).(int) != 1 {
+			t.Errorf("call over a recursive pointer type: %v", res.Err())
+		}
+	})
+	returns("NewFunc(func() A)", func() { _, _ = argmapper.NewFunc(func() d23A { return nil }) })
+	returns("NewValueSet", func() {
+		_, _ = argmapper.NewValueSet([]argmapper.Value{{Name: "p", Type: reflect.TypeOf(p)}})
+	})
+	returns("Convert", func() {
+		v, err := argmapper.Convert(reflect.TypeOf(p), argmapper.Typed(p))
+		if err != nil || v == nil {
+			t.Errorf("Convert(P, Typed(P)): %v", err)
+		}
+	})
+}
+
+// D24 (C06, C12): callGraph passed g.String() as an ARGUMENT of log.Trace, so
+// the whole graph -- including fmt's "%v" of every type-only input value --
+// was rendered on every Call, Convert and Redefine even with logging off.
+// A value that contains itself made fmt recurse until the process died with a
+// fatal stack overflow; a shared object that the called functions update under
+// their own lock was read by the library without it (data race).
+func TestD24_ValuesAreNotPrintedWhenNotTracing(t *testing.T) {
+	// fmt's %v of this value panics: it must not be rendered at all.
+	f := argmapper.MustFunc(argmapper.NewFunc(func(v *d24Unprintable) int { return v.n }))
+	res, p := call(f, argmapper.Typed(&d24Unprintable{n: 7}))
+	if p != nil {
+		t.Fatalf("panic: %v", p)
+	}
+	if res.Err() != nil || res.Out(0).(int) != 7 {
+		t.Fatalf("err=%v", res.Err())
+	}
+	if n := atomic.LoadInt64(&d24Printed); n != 0 {
+		t.Fatalf("the supplied value was formatted %d time(s) although trace logging is off", n)
+	}
+	if _, err := argmapper.Convert(reflect.TypeOf(&d24Unprintable{}), argmapper.Typed(&d24Unprintable{}), argmapper.Logger(hclog.NewNullLogger())); err != nil {
+		t.Fatalf("Convert: %v", err)
+	}
+	if _, err := f.Redefine(argmapper.Typed(&d24Unprintable{}), argmapper.Logger(hclog.NewNullLogger())); err != nil {
+		t.Fatalf("Redefine: %v", err)
+	}
+	if n := atomic.LoadInt64(&d24Printed); n != 0 {
+		t.Fatalf("the supplied value was formatted %d time(s) although trace logging is off", n)
+	}
+}
+
+var d24Printed int64
+
+type d24Unprintable struct{ n int }
+
+func (v *d24Unprintable) String() string {
+	atomic.AddInt64(&d24Printed, 1)
+	return "d24"
+}
+
+// D25 (C19): AddEdge is documented as "Both v1 and v2 must already be in the
+// Graph via Add or this will do nothing". With a missing tail it panicked
+// (assignment to entry in nil map); with only the head missing it wrote the
+// out-edge first and then panicked, leaving half an edge behind.
+func TestD25_AddEdgeWithMissingEndpointDoesNothing(t *testing.T) {
+	try := func(name string, prep func(g *graph.Graph), from, to int) {
+		var g graph.Graph
+		prep(&g)
+		func() {
+			defer func() {
+				if r := recover(); r != nil {
+					t.Errorf("%s: AddEdge panicked: %v", name, r)
+				}
+			}()
+			g.AddEdge(from, to)
+		}()
+		g.Add(1)
+		g.Add(2)
+		if out := g.OutEdges(from); len(out) != 0 {
+			t.Errorf("%s: OutEdges(%d) = %v, want none", name, from, out)
+		}
+		if in := g.InEdges(to); len(in) != 0 {
+			t.Errorf("%s: InEdges(%d) = %v, want none", name, to, in)
+		}
+	}
+	try("both missing", func(g *graph.Graph) {}, 1, 2)
+	try("tail missing", func(g *graph.Graph) { g.Add(2) }, 1, 2)
+	try("head missing", func(g *graph.Graph) { g.Add(1) }, 1, 2)
+}
+
+// D26 (C20): "Vertex can be anything", and a vertex implementing
+// VertexHashable is identified by its hash code everywhere in the graph --
+// except in StronglyConnected/Cycles, which keyed a map by the vertex VALUE and
+// compared values with ==: a hash-coded vertex type that is not comparable
+// (here: it holds a slice) panicked "hash of unhashable type".
+type d26V struct {
+	ID   int
+	Tags []string
+}
+
+func (v d26V) Hashcode() interface{} { return v.ID }
+
+func TestD26_StronglyConnectedWithNonComparableVertices(t *testing.T) {
+	var g graph.Graph
+	vs := make([]d26V, 5)
+	for i := range vs {
+		vs[i] = d26V{ID: i, Tags: []string{"x"}}
+		g.Add(vs[i])
+	}
+	// 0 -> 1 -> 2 -> 0 is a cycle, 3 -> 4 is not
+	g.AddEdge(vs[0], vs[1])
+	g.AddEdge(vs[1], vs[2])
+	g.AddEdge(vs[2], vs[0])
+	g.AddEdge(vs[3], vs[4])
+	var sccs [][]graph.Vertex
+	func() {
+		defer func() {
+			if r := recover(); r != nil {
+				t.Fatalf("StronglyConnected panicked: %v", r)
+			}
+		}()
+		sccs = g.StronglyConnected()
+	}()
+	sizes := map[int]int{}
+	for _, c := range sccs {
+		sizes[len(c)]++
+	}
+	if len(sccs) != 3 || sizes[3] != 1 || sizes[1] != 2 {
+		t.Fatalf("components: %v", sccs)
+	}
+	if c := g.Cycles(); len(c) != 1 || len(c[0]) != 3 {
+		t.Fatalf("cycles: %v", c)
+	}
+}
+
+// D27 (C18): the relaxation step added the edge weight to the distance without
+// regard for overflow. With weights close to the largest int a detour whose sum
+// wraps around came out negative and beat the true shortest path: a reachable
+// vertex whose real distance is representable got a negative distance and a
+// wrong predecessor. (The same wrap-around used to leave garbage distances on
+// unreachable vertices.)
+func TestD27_DijkstraPathSumOverflow(t *testing.T) {
+	const maxInt = int(^uint(0) >> 1)
+	var g graph.Graph
+	for i := 0; i < 5; i++ {
+		g.Add(i)
+	}
+	// 0 -> 1 -> 2 wraps around (maxInt-1 + 2); 0 -> 3 -> 2 is the real shortest path
+	g.AddEdgeWeighted(0, 1, maxInt-1)
+	g.AddEdgeWeighted(1, 2, 2)
+	g.AddEdgeWeighted(0, 3, maxInt-1)
+	g.AddEdgeWeighted(3, 2, 0)
+	// vertex 4 is unreachable, 4 -> 2 must not matter
+	g.AddEdgeWeighted(4, 2, 1)
+	distTo, edgeTo := g.Dijkstra(0)
+	if distTo[2] != maxInt-1 {
+		t.Errorf("distance to 2 is %d, want %d", distTo[2], maxInt-1)
+	}
+	path := g.EdgeToPath(2, edgeTo)
+	if len(path) != 3 || path[0] != 0 || path[1] != 3 || path[2] != 2 {
+		t.Errorf("path to 2 is %v, want [0 3 2]", path)
+	}
+	if distTo[1] != maxInt-1 || distTo[3] != maxInt-1 {
+		t.Errorf("distances to 1 and 3: %d %d", distTo[1], distTo[3])
+	}
+	if edgeTo[4] != nil {
+		t.Errorf("unreachable vertex 4 has predecessor %v", edgeTo[4])
 	}
 }
